@@ -73,18 +73,35 @@ def _cause_chain(e):
   return seen
 
 
+class _Failure:
+
+  def __init__(self, index, exc):
+    self.index, self.exc = index, exc
+
+
 def run_ops(case):
   from ml_metrics._src.chainables import io  # pylint: disable=g-import-not-at-top
   prog, records, skip, nthreads = case['prog'], case['records'], case['skip'], case['num_threads']
   what = f'program {prog["ops"]} on {records} ignore_error={skip} num_threads={nthreads}'
-  want, want_sinks, failure = pref.run(prog, records, skip_errors=skip, skippable=(Exception,))
+  bad = sorted(set(case.get('bad_reads') or []))      # positions whose read fails in the source (skippable ValueError)
+  as_iter = case.get('source_as') == 'iterator'       # the source handed over as a plain iterator (not shardable)
+  what += f' bad_reads={bad} source_as={case.get("source_as", "source")}'
+  if bad and skip:
+    want, want_sinks, failure = pref.run(prog, [r for i, r in enumerate(records) if i not in bad], skip_errors=True, skippable=(Exception,))
+  elif bad:
+    want, want_sinks, failure = pref.run(prog, records[:bad[0]], skip_errors=False, skippable=(Exception,))
+    if failure is None:
+      failure = _Failure(bad[0], ValueError(f'bad read at {bad[0]}'))
+  else:
+    want, want_sinks, failure = pref.run(prog, records, skip_errors=skip, skippable=(Exception,))
   t, sinks = pipegen.build(prog, num_threads=nthreads)
   before = set(threading.enumerate())
-  got, err = [], []
+  got, err, after = [], [], []
 
   def consume():
-    src = io.SequenceDataSource(copy.deepcopy(records))
-    it = t.make().iterate(src, ignore_error=skip)
+    data = copy.deepcopy(records)
+    src = io.SequenceDataSource(FailingSeq(data, bad, 'ValueError') if bad else data)
+    it = t.make().iterate(iter(src) if as_iter else src, ignore_error=skip)
     try:
       for x in it:
         got.append(x)
@@ -92,6 +109,15 @@ def run_ops(case):
       # keep only a traceback-free copy of the cause chain: frames would keep the suspended generators (and sinks) alive
       err.append([(type(c), str(c)) for c in _cause_chain(e)])
       del e
+      if not nthreads:
+        # iteration has stopped: asking again must not hand out the elements behind the failing one
+        for _ in range(3):
+          try:
+            after.append(next(it))
+          except StopIteration:
+            break
+          except Exception:  # pylint: disable=broad-exception-caught
+            pass
     del it
   if nthreads:
     _run_with_watchdog(consume, what)
@@ -116,6 +142,7 @@ def run_ops(case):
           f'{what}: raised {[f"{t.__name__}: {m}"[:80] for t, m in chain]}, original is {failure.exc!r}')
     if not threaded:
       check(eq(got, want), 'wrong-elements-before-first-error', f'{what}: delivered {got!r} before the error, reference {want!r}')
+      check(not after, 'iteration-continues-after-error', f'{what}: after the error surfaced, next() handed out {after!r}')
   for i, s in enumerate(sinks):
     check(s.closed >= 1, 'sink-not-closed', f'{what}: sink {i} not closed (error={bool(err)})')
   if threaded:
@@ -141,8 +168,11 @@ def strat_ops(tier):
     if records and draw(st.integers(0, 5)) == 0:
       i = draw(st.integers(0, len(records) - 1))
       records[i] = {k: v for k, v in records[i].items() if k != 'b'}
-    return {'prog': prog, 'records': records, 'skip': draw(st.booleans()),
-            'num_threads': draw(st.sampled_from([0, 0, 0, 1, 2]))}
+    case = {'prog': prog, 'records': records, 'skip': draw(st.booleans()), 'num_threads': draw(st.sampled_from([0, 0, 0, 1, 2]))}
+    if records and draw(st.integers(0, 3)) == 0:
+      case['bad_reads'] = draw(st.lists(st.integers(0, len(records) - 1), min_size=1, max_size=2))
+    case['source_as'] = draw(st.sampled_from(['source', 'source', 'iterator']))
+    return case
   return s()
 
 
